@@ -37,9 +37,26 @@ def mid_of(n):
     return "0A" + urlsafe_b64encode(b"\0\0" + raw)[2:].decode()
 
 
-def memoer_class(auth=False):
+class _RecvSock:
+    """scripted UDP socket for the receive side: recvfrom pops queued (data, (host, port)) or would-blocks"""
+    def __init__(self):
+        self.queue = []
+
+    def recvfrom(self, bs):
+        import errno
+        if not self.queue:
+            raise OSError(errno.EAGAIN, "EAGAIN")
+        return self.queue.pop(0)
+
+    def close(self):
+        pass
+
+
+def memoer_class(auth=False, udp=False):
     from hio.core.memo.memoing import Memoer, AuthMemoer
     Base = AuthMemoer if auth else Memoer
+    if udp:
+        from hio.core.udp.peermemoing import PeerMemoer as Base     # real Peer.receive over the scripted socket
 
     class VMemoer(Base):
         """Real Memoer; verify is wrapped to log (vid, sig, ser) -> outcome; makeMID is deterministic."""
@@ -107,6 +124,9 @@ def new_receiver(authic, keepmode="full", rxclass=None, own=False, **cfg):
     if rxclass == "auth":            # AuthMemoer forces authic=True (and a signed code unless one is given)
         m = memoer_class(auth=True)(keep=keep, **cfg)
         assert m.authic
+    elif rxclass == "udp":           # the real UDP PeerMemoer: sources are (host, port) tuples from Peer.receive
+        m = memoer_class(udp=True)(authic=authic, keep=keep, **cfg)
+        m.ls = _RecvSock()
     else:
         m = memoer_class()(authic=authic, keep=keep, **cfg)
     if own:
@@ -117,22 +137,26 @@ def new_receiver(authic, keepmode="full", rxclass=None, own=False, **cfg):
     return m
 
 
-def src_name(i):
-    return "src%d" % i
+def src_name(i, typ="str"):
+    """source address as the transports report it: a path-like str (UXD, echo) or a (host, port) tuple (UDP)"""
+    return "src%d" % i if typ == "str" else ("10.0.0.%d" % i, 5000 + i)
 
 
 def src_index(s):
-    return int(s[3:])
+    return int(s[3:]) if isinstance(s, str) else s[1] - 5000
 
 
-def run_rx_ops(m, ops):
+def run_rx_ops(m, ops, srctype="str"):
     """ops: ["dgram", hex, src] | ["recv"] | ["grams"] | ["memos"] | ["all"] | ["once"] |
     ["rxset", "size"|"curt"|"code", value] (the receiver's own property setters)."""
     excs = []
     for op in ops:
         try:
             if op[0] == "dgram":
-                m.echos.append((bytes.fromhex(op[1]), src_name(op[2])))
+                if isinstance(getattr(m, "ls", None), _RecvSock):
+                    m.ls.queue.append((bytes.fromhex(op[1]), src_name(op[2], "tuple")))
+                else:
+                    m.echos.append((bytes.fromhex(op[1]), src_name(op[2], srctype)))
             elif op[0] == "recv":
                 m.serviceReceives()
             elif op[0] == "grams":
@@ -174,7 +198,8 @@ def observe_rx(m):
         if k not in seen:
             seen.add(k); vlog.append(e)
     return {"rxgs": rxgs, "rxms": [memo(t) for t in rxms_], "inbox": [memo(t) for t in m.inbox],
-            "queue": len(m.echos), "verify": vlog, "not_adopted": not_adopted,
+            "queue": len(m.ls.queue) if isinstance(getattr(m, "ls", None), _RecvSock) else len(m.echos),
+            "verify": vlog, "not_adopted": not_adopted,
             "keep": sorted([v.encode().hex(), k.qvk.encode().hex()] for v, k in keep.items())}
 
 
